@@ -576,7 +576,7 @@ class CallMixin:
             if c.raises is None:
                 exc, cond = self.any_exc('BaseException')
                 bad = st.copy().assume(cond)
-                bad.env = caller_env
+                bad.env = dict(caller_env)         # (its own environment: a handler's bindings must not leak into the normal path)
                 exits.append(Outcome('raise', bad, exc, line, f'{c.qualname} (unspecified exceptions)'))
             else:
                 for ename, cond_tx in c.raises.items():
@@ -589,7 +589,7 @@ class CallMixin:
                         exc = self.exc_val(ename)
                     g = self.ev_spec(cond_tx, bad, old=pre)
                     bad.assume(g)
-                    bad.env = caller_env
+                    bad.env = dict(caller_env)
                     if self.feasible(bad):
                         exits.append(Outcome('raise', bad, exc, line, f'{c.qualname} raises {ename}'))
             # normal outcome
